@@ -433,7 +433,33 @@ func (g *dgen) read() []string {
 func (g *dgen) mutate(a []string) []string {
 	a = append([]string{}, a...)
 	g.nops++
-	switch g.rng.Intn(13) {
+	switch g.rng.Intn(16) {
+	case 15: // an error text the code itself tests for (harvested from the current source), as a non-key argument
+		if ms := magicStrings(); len(ms) > 0 && len(a) > 2 {
+			m := ms[g.rng.Intn(len(ms))]
+			if g.p(0.3) {
+				m = "x " + m + " y"
+			}
+			a[2+g.rng.Intn(len(a)-2)] = m
+		} else if len(ms) > 0 {
+			a = append(a, ms[g.rng.Intn(len(ms))])
+		}
+	case 13, 14: // a LATE invalid argument behind valid, effective ones: the command fails after it has buffered writes
+		long := strings.Repeat("x", 10241)
+		switch strings.ToLower(a[0]) {
+		case "hdel", "srem", "zrem", "sadd", "lpush", "rpush":
+			a = append(a, long)
+		case "hmset":
+			a = append(a, long, "v")
+		case "zadd":
+			a = append(a, "1", long)
+		case "del":
+			a = append(a, g.pick([]string{dataNS + ":abc", dataNS + ":t:" + strings.Repeat("k", 10241), "abc"}))
+		default:
+			if len(a) > 2 {
+				a[len(a)-1] = long
+			}
+		}
 	case 0: // drop last
 		if len(a) > 1 {
 			a = a[:len(a)-1]
@@ -642,6 +668,45 @@ func (g *dgen) session(tier string, idx int) {
 				}
 			}
 			continue
+		}
+		if g.p(0.04) && !last && !g.open && len(g.keys) >= 2 {
+			// dependency inside ONE apply event: a multi-key write followed by a state-dependent write on one of ITS LATER keys
+			// (the batch operator's duplicate-key check must see every key of the multi-key command, else the second command
+			// reads a state that depends on how entries were grouped into events)
+			k1 := g.key()
+			k2 := g.key()
+			for tries := 0; k2 == k1 && tries < 8; tries++ {
+				k2 = g.key()
+			}
+			if k2 != k1 {
+				dep := [][]string{{"set", k2, g.val(), "nx"}, {"setnx", k2, g.val()}, {"incr", k2}, {"append", k2, "x"}, {"set", k2, g.val(), "xx"}, {"getset", k2, g.val()}}[g.rng.Intn(6)]
+				var pre, ev [][]string
+				switch g.rng.Intn(3) {
+				case 0:
+					pre = [][]string{{"set", k1, "1"}, {"set", k2, "2"}}
+					ev = [][]string{{"del", k1, k2}, dep}
+				case 1:
+					pre = [][]string{{"set", k2, "7"}}
+					ev = [][]string{{"set", k1, "1"}, {"del", k1, k2}, dep}
+				default:
+					pre = [][]string{{"set", k1, "1"}, {"set", k2, "2"}}
+					ev = [][]string{{"del", k2, k1, k2}, dep, {"exists", k1, k2}}[:2]
+				}
+				for _, a := range pre {
+					g.stepClock()
+					g.emit(fmt.Sprintf("w %d 1 %s", g.ts, hexArgs(a)))
+				}
+				for j, a := range ev {
+					g.stepClock()
+					b := 0
+					if j == len(ev)-1 {
+						b = 1
+					}
+					g.emit(fmt.Sprintf("w %d %d %s", g.ts, b, hexArgs(a)))
+				}
+				g.emit("inv")
+				continue
+			}
 		}
 		g.stepClock()
 		a := g.write()
